@@ -676,8 +676,15 @@ impl Emit for ModuleFunctions {
             ));
         }
         cx.code_transform.function_ranges.sort_by_key(|i| i.0);
-        // FIXME: code section start in DWARF debug information expects 2 bytes before actual code section start.
-        cx.code_transform.code_section_start = code_section_start_offset - 2;
+        // Code-relative (DWARF) addresses are measured from the start of the
+        // code section's contents, i.e. from the LEB128-encoded function count
+        // that precedes the first function entry.
+        let count_leb_len = {
+            let mut count = Vec::new();
+            wasm_code_section.len().encode(&mut count);
+            count.len()
+        };
+        cx.code_transform.code_section_start = code_section_start_offset - count_leb_len;
         cx.code_transform.instruction_map = instruction_map.into_iter().collect();
     }
 }
